@@ -73,6 +73,7 @@ def gen(rng, tier):
             "jobs": jobs, "trigger_at": rng.choice([0, 0.01, 0.05, 0.3, 1.0]), "settle": 60.0,
             # other idle executors alive at the same time (interpreter-exit must reach all of them),
             # one of which may be dropped by another thread while the trigger is in progress
+            "retry_sleep": rng.choice([0.05, 0.05, 40.0]),
             "bystanders": [rng.choice(["retry", "timeout", "poll", "throttle"]) for _ in range(rng.choice([0, 0, 1, 2, 3]))],
             "drop_bystander": rng.random() < 0.5}
     spec["sim"] = runner.draw_sim_cfg(rng, est=600)
@@ -87,7 +88,9 @@ def make_executor(spec, env):
         return Executors.thread_pool(max_workers=2)
     base = Executors.thread_pool(max_workers=2) if spec["base"] == "pool" else Executors.sync()
     if kind == "retry":
-        return base.with_retry(max_attempts=2, sleep=0.05)
+        # a long back-off keeps the submit thread in a timed wait: nothing the user has dropped
+        # may stay referenced from there
+        return base.with_retry(max_attempts=2, sleep=spec.get("retry_sleep", 0.05))
     if kind == "poll":
         def poll_fn(ds):
             for d in ds:
@@ -116,7 +119,7 @@ def run(spec, env):
     kind, mode = spec["kind"], spec["mode"]
     by = []
     for bk in (spec.get("bystanders", []) if mode == "exithook" else []):
-        by.append(make_executor({"kind": bk, "base": "sync"}, env))
+        by.append(make_executor({"kind": bk, "base": "sync", "retry_sleep": 0.05}, env))
     ex = make_executor(spec, env)
     wr = {"future": [], "callable": [], "arg": [], "result": []}
     futs = []
